@@ -32,6 +32,7 @@ type dstep struct {
 }
 
 type dscenario struct {
+	hostExists bool // <base>/<hostname> already exists durably (another table lives on this host)
 	log     []logEntry
 	batches [][]logEntry
 	steps   []dstep
@@ -72,6 +73,7 @@ func makeScenario(rng *rand.Rand) dscenario {
 		p += k
 	}
 	sc.srt = fsm.SnapshotRecoveryType(rng.Intn(2))
+	sc.hostExists = rng.Intn(2) == 0
 	sc.steps = append(sc.steps, dstep{kind: "open"})
 	recovered := false
 	for b := range sc.batches {
@@ -89,6 +91,30 @@ func makeScenario(rng *rand.Rand) dscenario {
 	if rng.Intn(2) == 0 {
 		sc.steps = append(sc.steps, dstep{kind: "close"})
 	}
+	return sc
+}
+
+// bigScenario : one apply batch whose first entry is a blind write of several MiB and whose second entry reads inside
+// the batch (prev_kv): if the batch were committed in two halves a memtable flush could fall between them.
+func bigScenario(rng *rand.Rand) dscenario {
+	var sc dscenario
+	big := func(i int) []byte {
+		v := make([]byte, 9<<20)
+		for j := range v {
+			v[j] = byte(i + j)
+		}
+		return v
+	}
+	sc.log = []logEntry{
+		{I: 1, LI: -1, C: m.Cmd{T: "PUT", K: []byte("e01"), V: []byte{1}}},
+		{I: 2, LI: -1, C: m.Cmd{T: "PUT", K: []byte("e02"), V: big(2)}},
+		{I: 3, LI: 7, C: m.Cmd{T: "SEQ", Cmds: []m.Cmd{{T: "PUT", K: []byte("e03a"), V: big(3)}, {T: "PUT", K: []byte("e03b"), V: []byte{3}, Prev: true},
+			{T: "TXN", Succ: []m.Op{{T: "put", K: []byte("e03c"), V: big(4)}, {T: "put", K: []byte("e03d"), V: []byte{4}}}}}}},
+		{I: 4, LI: -1, C: m.Cmd{T: "PUT", K: []byte("e04"), V: []byte{4}, Prev: true}},
+	}
+	sc.batches = [][]logEntry{sc.log[0:1], sc.log[1:4]}
+	sc.srt = fsm.SnapshotRecoveryType(rng.Intn(2))
+	sc.steps = []dstep{{kind: "open"}, {kind: "update", batch: 0}, {kind: "sync"}, {kind: "update", batch: 1}, {kind: "sync"}}
 	return sc
 }
 
@@ -237,6 +263,14 @@ func diskScenario(tr *tracer.T, sc dscenario, quickStride int) (runs int) {
 		if d, err := cfs.MemFS.OpenDir("/"); err == nil {
 			d.Sync()
 			d.Close()
+		}
+		if sc.hostExists {
+			hn, _ := os.Hostname()
+			cfs.MemFS.MkdirAll("/data/"+hn, 0o755)
+			if d, err := cfs.MemFS.OpenDir("/data/" + hn); err == nil {
+				d.Sync()
+				d.Close()
+			}
 		}
 		if d, err := cfs.MemFS.OpenDir("/data"); err == nil {
 			d.Sync()
@@ -468,6 +502,8 @@ func init() {
 				} else {
 					diskStop(tr, rng)
 				}
+			} else if *mode == "bigbatch" {
+				runs = diskScenario(tr, bigScenario(rng), *stride)
 			} else {
 				sc := makeScenario(rng)
 				runs = diskScenario(tr, sc, *stride)
